@@ -388,7 +388,7 @@ def _build(d):
 
 
 def strategy(tier):
-    return decoded(_build, min_size=64, max_size=300)
+    return decoded(_build, min_size=64, max_size=420)
 
 
 def budget(tier):
